@@ -1,7 +1,7 @@
 (** Statement pins for C04: the property theorems must have exactly these
     types, so they cannot be weakened silently. *)
-From RsM Require Import Lib.MachInt Model.Dedup Model.DedupSpec
-  Proofs.DedupTheorems Proofs.DedupGroup Props.C04.
+From RsM Require Import Lib.MachInt Model.Dedup Model.DedupSpec Model.DedupRx
+  Proofs.DedupTheorems Proofs.DedupGroup Proofs.DedupRx Props.C04.
 Open Scope N_scope.
 
 Check (C04_never_twice : forall (s : rx) (h : list N),
@@ -29,3 +29,5 @@ Check (C04_group_store_tracked : forall st f n c e,
   (forall f2 n2, ~ (f2 = f /\ n2 = n) ->
      g_lookup (g_entries (fst (g_post_recv st f n c))) f2 n2 =
      g_lookup (g_entries st) f2 n2)).
+Check (C04_group_path_accepts_only_what_store_accepts : forall (ms : list gmsg) (s : grx),
+  Forall2 (fun p q => p = true -> q = true) (path_flags s ms) (store_flags (gx_store s) ms)).
